@@ -53,6 +53,27 @@ type Strict struct {
 	} `json:"c"`
 }
 
+// Structs with an embedded fallback: the extra members live in a map / raw value (`json:",embed"`).
+type RestAny struct {
+	A    int            `json:"a"`
+	Rest map[string]any `json:",embed"`
+}
+
+type RestInts struct {
+	Z    string         `json:"z"`
+	Rest map[string]int `json:",embed"`
+}
+
+type RestRaw struct {
+	A    int            `json:"a"`
+	Rest jsontext.Value `json:",embed"`
+}
+
+type RestNested struct {
+	ID   int                       `json:"id"`
+	Rest map[string]map[string]int `json:",embed"`
+}
+
 // Node is a linked list: depth grows through a struct pointer inside a JSON object.
 type Node struct {
 	V    int   `json:"v"`
